@@ -531,11 +531,20 @@ def mod(a, b):
         return ('op', 'FORMAT%', a, b)
     # (INT(x,'big') + INT(y,'big')) mod N  ==  SK_ADD_INT(x, y)
     if b == CURVE_N and is_op(a, 'ADD'):
-        x, y = a[2], a[3]
-        if is_op(x, 'INT') and is_op(y, 'INT') and x[3] == const('big') and y[3] == const('big'):
-            p, q = sorted((x[2], y[2]), key=repr)
+        xs = [_scalar_bytes(z) for z in a[2:]]
+        if len(xs) == 2 and all(z is not None for z in xs):
+            p, q = sorted(xs, key=repr)
             return ('op', 'SK_ADD_INT', p, q)
     return ('op', 'MOD', a, b)
+
+
+def _scalar_bytes(i):
+    """32-byte big-endian bytes term whose integer value is the int term i (None if not of that form)."""
+    if is_op(i, 'INT') and i[3] == const('big'):
+        return i[2]
+    if is_op(i, 'SK_ADD_INT'):
+        return ('op', 'SK_ADD', i[2], i[3])
+    return None
 
 
 def sk_add(a, b):
